@@ -10,7 +10,9 @@ def run(ctx):
     vlib.mc(ctx, "WatchLog", "MC_WatchLog_quick.cfg", timeout=1200)
     if not quick:
         for cfg in ["MC_WatchLog_t1.cfg", "MC_WatchLog_t2.cfg", "MC_WatchLog_t3.cfg", "MC_WatchLog_t4.cfg", "MC_WatchLog_t5.cfg"]:
-            vlib.mc(ctx, "WatchLog", cfg, timeout=3000)
+            # t5 (two watchers, five publishes, tails): 93 M distinct states, 18 min on 12 otherwise idle cores; the limit leaves
+            # room for a machine that is shared with other jobs (a timeout is exit 2, never a verdict)
+            vlib.mc(ctx, "WatchLog", cfg, timeout=10800)
     configs = watchlib.RING_CONFIGS[:3] if quick else watchlib.RING_CONFIGS
     groups = watchlib.gen_groups(ctx, configs, 40 if quick else 400, 40 if quick else 60)
     ctx.cov["behaviours_replayed"] = sum(len(g["behs"]) for g in groups)
